@@ -247,3 +247,52 @@ Fixpoint times_sorted (t0 : Q) (evs : list (Q * event)) : Prop :=
    (never used, or deleted by a cleanup pass) is created full on its next use *)
 Definition level (lim : limits) (m : list (key * tb)) (k : key) (now : Q) : Q :=
   match find k m with Some b => tokens_at b now | None => burst_of lim k end.
+
+(* time of the last event (t0 when there is none) *)
+Fixpoint end_time (t0 : Q) (evs : list (Q * event)) : Q :=
+  match evs with [] => t0 | (t, _) :: r => end_time t r end.
+
+(* ---- accounting used by the C18 statement ----
+   For every limiter: when it was created (first consulted; NewRateLimiter for the global one; a per-connection
+   limiter starts afresh after CleanupConnection) and how many requests were admitted since.  A cleanup pass does
+   not restart the account: the bound is stated against the FIRST creation, which is the stronger claim.
+   final = false counts the requests the limiter itself admitted, final = true those admitted by the whole chain. *)
+Record entry := { created : Q; count : Z }.
+Definition ledger := list (key * entry).
+Fixpoint lfind (k : key) (g : ledger) : option entry :=
+  match g with [] => None | (k', v) :: r => if key_eqb k k' then Some v else lfind k r end.
+Definition lremove (k : key) (g : ledger) : ledger := filter (fun e => negb (key_eqb k (fst e))) g.
+Definition lset (k : key) (v : entry) (g : ledger) : ledger := (k, v) :: lremove k g.
+
+Definition ledger_consult (final fin : bool) (now : Q) (g : ledger) (ka : key * bool) : ledger :=
+  let en := match lfind (fst ka) g with Some en => en | None => {| created := now; count := 0 |} end in
+  lset (fst ka) {| created := created en;
+                   count := (count en + if (if final then fin else snd ka) then 1 else 0)%Z |} g.
+Definition ledger_step (final : bool) (now : Q) (ev : event) (tr : list (key * bool)) (g : ledger) : ledger :=
+  match ev with
+  | Close c => lremove (KConn c) g
+  | _ => fold_left (ledger_consult final (admitted tr) now) tr g
+  end.
+Fixpoint ledger_run (final : bool) (evs : list (Q * event)) (trs : list (list (key * bool))) (g : ledger) : ledger :=
+  match evs, trs with
+  | (now, ev) :: r, tr :: trs' => ledger_run final r trs' (ledger_step final now ev tr g)
+  | _, _ => g
+  end.
+Definition ledger_init (t0 : Q) : ledger := [(KGlobal, {| created := t0; count := 0 |})].
+
+(* ---- vocabulary of the C19 statements ---- *)
+(* the global limiter is consulted last, and only once *)
+Definition is_global (l : rl_limiter) : bool := match l with RL_Global => true | _ => false end.
+Definition global_last (ord : list rl_limiter) : bool :=
+  match rev ord with
+  | RL_Global :: r => negb (existsb is_global r)
+  | _ => false
+  end.
+(* the times of the AllowRequest calls that were admitted *)
+Fixpoint admitted_req_times (evs : list (Q * event)) (trs : list (list (key * bool))) : list Q :=
+  match evs, trs with
+  | (t, Req _ _) :: r, tr :: trs' =>
+      if admitted tr then t :: admitted_req_times r trs' else admitted_req_times r trs'
+  | _ :: r, _ :: trs' => admitted_req_times r trs'
+  | _, _ => []
+  end.
